@@ -68,7 +68,8 @@ def main():
     t0 = time.time()
     try:
         cmd = f"python3 vf.py check {prop} --tier {tier} " + " ".join(f"--only {h}" for h in only)
-        rc, o = sh(cmd, cwd=V, timeout=7200)
+        # evidence of a run against a seeded tree must not replace the evidence of the unchanged tree
+        rc, o = sh(cmd, cwd=V, timeout=7200, env=dict(os.environ, VERIF_EVIDENCE=os.environ.get("VERIF_EVIDENCE", "/var/tmp/slicec-verif-seed-evidence")))
     finally:
         sh("git checkout -- .", cwd="/repo")
     viol = [l for l in o.split("\n") if l.startswith("VIOLATION") or l.startswith("  failing check") or l.startswith("INCONCLUSIVE")]
